@@ -14,22 +14,39 @@ SYMS = ['', 'x', 'y']        # epsilon and two distinct stack symbols
 DUMMY = '#dummy'
 
 
-def _method_expr(ctx, f, call):
-    """body expression of a one-line boolean method such as PDA.is_push_pop_transition"""
-    cal = ctx.callee(f, call)
-    if cal is None:
-        return None, None
-    rets = [n for n in walk_no_nested(cal.node) if isinstance(n, ast.Return)]
-    if len(rets) != 1:
-        return None, None
-    return cal, rets[0].value
+def _eval_method(cal, env2):
+    """value returned by a small boolean method (PDA.is_push_pop_transition) on concrete symbols: straight-line code with
+    if / early returns, evaluated by the analyser's expression evaluator"""
+    def run(stmts):
+        for st in stmts:
+            if isinstance(st, ast.Expr):
+                continue
+            if isinstance(st, ast.Assign) and len(st.targets) == 1 and isinstance(st.targets[0], ast.Name):
+                if u(st.value).endswith('.epsilon'):
+                    env2[st.targets[0].id] = EPS
+                else:
+                    env2[st.targets[0].id] = abseval.ev(st.value, env2)
+                continue
+            if isinstance(st, ast.If):
+                r = run(st.body) if abseval.ev(st.test, env2) else run(st.orelse)
+                if r is not None:
+                    return r
+                continue
+            if isinstance(st, ast.Return):
+                return ('ret', abseval.ev(st.value, env2))
+            raise Unsupported('statement ' + type(st).__name__)
+        return None
+    r = run(cal.node.body)
+    if r is None:
+        raise Unsupported('method returns nothing')
+    return r[1]
 
 
 def _eval_cond(ctx, f, e, env):
     """evaluate a branch condition on concrete symbols; method calls are evaluated through their bodies"""
     if isinstance(e, ast.Call):
-        cal, body = _method_expr(ctx, f, e)
-        if cal is not None and body is not None:
+        cal = ctx.callee(f, e)
+        if cal is not None:
             params = [p.arg for p in cal.pos_params]
             args = list(e.args)
             if params and params[0] == 'self':
@@ -37,12 +54,8 @@ def _eval_cond(ctx, f, e, env):
             env2 = {}
             for p, a in zip(params, args):
                 env2[p] = abseval.ev(a, env)
-            # local aliases inside the method: epsilon = self.epsilon
-            for n in walk_no_nested(cal.node):
-                if isinstance(n, ast.Assign) and len(n.targets) == 1 and isinstance(n.targets[0], ast.Name) and u(n.value).endswith('.epsilon'):
-                    env2[n.targets[0].id] = EPS
             env2.setdefault('epsilon', EPS)
-            return bool(abseval.ev(body, env2))
+            return bool(_eval_method(cal, env2))
     if isinstance(e, ast.BoolOp):
         vs = [_eval_cond(ctx, f, v, env) for v in e.values]
         return all(vs) if isinstance(e.op, ast.And) else any(vs)
@@ -175,14 +188,26 @@ def _chain_order(inserted):
 def check_pop_push_guard(ctx, rep, funcs, rule='R-PDAFORM.guard'):
     """every pda_pop_push call is dominated by pda_can_pop_push on the same arguments"""
     n = 0
-    for f in funcs:
+    units = []
+    seen_units = set()
+    for f0 in funcs:
+        stack = [f0]
+        while stack:
+            g0 = stack.pop()
+            if g0.qualname not in seen_units:
+                seen_units.add(g0.qualname)
+                units.append(g0)
+            stack.extend(g0.nested.values())
+    for f in units:
         fx = ctx.facts(f)
         ma = must_atoms(fx)
-        for c in ctx.prog.calls_in(f):
+        for c in [x for x in walk_no_nested(f.node) if isinstance(x, ast.Call)]:
             if ctx.callee_name(f, c) != 'pda_pop_push':
                 continue
-            n += 1
             nid = fx.stmt_of_expr(c)
+            if nid is None:
+                continue
+            n += 1
             args = ', '.join(u(a) for a in c.args)
             want = 'pda_can_pop_push({})'.format(args)
             atoms = set(ma.get(nid, frozenset())) | {a[:4] for a in fx.guard_atoms(nid)}
@@ -436,6 +461,29 @@ def check_find_transition(ctx, rep, f, rule='R-PDAFORM.witness'):
                         whole = True
                 elif 'target.stack' in xs:
                     partial.append(a)
+        # the comparison may be delegated to a local predicate:  if reaches_target(src, u, q, v): return src
+        for a in atoms:
+            if a[0] == 'truthy' and a[3] is True:
+                try:
+                    call = ast.parse(a[1], mode='eval').body
+                except SyntaxError:
+                    continue
+                if isinstance(call, ast.Call) and isinstance(call.func, ast.Name) and call.func.id in f.nested:
+                    h = f.nested[call.func.id]
+                    hrets = [r0.value for r0 in walk_no_nested(h.node) if isinstance(r0, ast.Return) and r0.value is not None and not (isinstance(r0.value, ast.Constant) and not r0.value.value)]
+
+                    def has_whole(e):
+                        for c in ast.walk(e):
+                            if isinstance(c, ast.Compare) and len(c.ops) == 1 and isinstance(c.ops[0], ast.Eq):
+                                xs, ys = u(c.left).replace(' ', ''), u(c.comparators[0]).replace(' ', '')
+                                for x, y in ((xs, c.comparators[0]), (ys, c.left)):
+                                    if x in ('target.stack', 'target') and any(isinstance(k, ast.Call) and isinstance(k.func, ast.Name) and k.func.id in ('pda_pop_push', 'PDAState') for k in ast.walk(y)):
+                                        return True
+                        return False
+                    if hrets and all(has_whole(e) for e in hrets):
+                        whole = True
+                        if any('target.q' in u(t).replace(' ', '') for t in ast.walk(h.node) if isinstance(t, ast.Compare)):
+                            state_ok = True
         n += 1
         if whole and (state_ok or any('PDAState' in a[1] + a[2] for a in atoms)):
             rep.holds(rule, f, r, 'the witness is returned only when the state and the complete resulting stack equal the target configuration')
